@@ -267,8 +267,13 @@ impl<'a> P<'a> {
         }
         self.pos += 1;
         self.ws();
-        let val = self.value()?;
-        Ok((path, val))
+        // the tables a dotted key creates nest its value: depth is cumulative (as in the library
+        // since the F9 repair), so that class L is decided on the true nesting of the tree
+        let extra = path.len() - 1;
+        self.depth += extra;
+        let val = self.value();
+        self.depth -= extra;
+        Ok((path, val?))
     }
 
     /// key = simple-key / dotted-key
